@@ -556,6 +556,18 @@ def derived_relations(system: Any, msgs: Sequence[Tuple[str, str]] = ()) -> List
                 bad.append(f"FunctionInClassIsMethod:{o.fullName()}:{o.kind}")
         if isinstance(o, (model.Function, model.Attribute)) and o.contents:
             bad.append(f"LeavesHaveNoChildren:{o.fullName()}")
+    # 'implemented by' is the inverse of 'implements' (zope.interface extension)
+    for k, o in system.allobjects.items():
+        for name in getattr(o, "implements_directly", []) or []:
+            t = system.allobjects.get(name)
+            if t is not None and getattr(t, "isinterface", False) and not any(x is o for x in getattr(t, "implementedby_directly", [])):
+                bad.append(f"ImplementedByInverse:{k}->{name}")
+        if getattr(o, "isinterface", False):
+            for impl in getattr(o, "implementedby_directly", []):
+                if o.fullName() not in getattr(impl, "implements_directly", []):
+                    bad.append(f"ImplementedByInverse:{k}<-{impl.fullName()}")
+                if system.allobjects.get(impl.fullName()) is not impl:
+                    bad.append(f"ImplementedByRegistered:{k}<-{impl.fullName()}")
     urls: Dict[str, str] = {}
     for k, o in system.allobjects.items():
         if o.documentation_location is model.DocLocation.OWN_PAGE and o.isVisible:
